@@ -172,6 +172,7 @@ type relay struct {
 	cancel context.CancelFunc
 	probe  *leaf
 	rcID   uuid.UUID
+	cut    bool // the link to the parent is broken (Outage) and has not been restored yet
 }
 
 type drv struct {
@@ -309,6 +310,7 @@ type proxy struct {
 	l     net.Listener
 	mu    sync.Mutex
 	conns []net.Conn
+	down  bool // outage: connections are accepted and dropped at once, nothing reaches the target
 }
 
 func newProxy(target string) (*proxy, error) {
@@ -322,6 +324,13 @@ func newProxy(target string) (*proxy, error) {
 			c, err := l.Accept()
 			if err != nil {
 				return
+			}
+			p.mu.Lock()
+			down := p.down
+			p.mu.Unlock()
+			if down {
+				c.Close()
+				continue
 			}
 			u, err := net.Dial("tcp", target)
 			if err != nil {
@@ -348,6 +357,20 @@ func (p *proxy) cut() {
 		c.Close()
 	}
 	p.conns = nil
+	p.mu.Unlock()
+}
+
+// outage: cut, and every new connection is dropped until restore
+func (p *proxy) outage() {
+	p.mu.Lock()
+	p.down = true
+	p.mu.Unlock()
+	p.cut()
+}
+
+func (p *proxy) restore() {
+	p.mu.Lock()
+	p.down = false
 	p.mu.Unlock()
 }
 
@@ -389,6 +412,97 @@ func (d *drv) poolOf(node string) (*fractal.CollectorPool, string) {
 	return nil, ""
 }
 
+// linkUp: every link from node up to the superior is up
+func (d *drv) linkUp(node string) bool {
+	for node != "S" {
+		r := d.relays[node]
+		if r == nil || r.cut {
+			return false
+		}
+		node = r.parent
+	}
+	return true
+}
+
+// outage breaks relay name's link to its parent; the relay stays up and will dial again (through the proxy, which
+// drops every attempt until recover)
+func (d *drv) outage(name string) string {
+	r := d.relays[name]
+	if r == nil || r.cut {
+		return "skip"
+	}
+	ppool, _ := d.poolOf(r.parent)
+	if ppool == nil {
+		return "skip"
+	}
+	before := ppool.Count()
+	r.px.outage()
+	r.cut = true
+	if !waitFor(3*time.Second, func() bool { return ppool.Count() < before }) {
+		return "poolkeeps-after-cut"
+	}
+	// the relay notices too: its reader fails, it stops and waits for its retry interval
+	time.Sleep(20 * time.Millisecond)
+	return "ok"
+}
+
+// recover lets the relay's next dial through and waits until it is a collector of its parent again and - where a
+// path to the superior exists - until reports flow again
+func (d *drv) recover(name string) string {
+	r := d.relays[name]
+	if r == nil || !r.cut {
+		return "skip"
+	}
+	ppool, _ := d.poolOf(r.parent)
+	if ppool == nil {
+		return "skip"
+	}
+	// whatever was sent into the broken link has been refused by now
+	time.Sleep(200 * time.Millisecond)
+	var want uuid.UUID
+	if r.parent == "S" {
+		if d.cur != "" {
+			want = nameUUID("task", d.cur, d.w.seed)
+		}
+	} else if pr := d.relays[r.parent]; pr != nil {
+		pr.probe.mu.Lock()
+		want = pr.probe.lastQ
+		pr.probe.mu.Unlock()
+	}
+	had := 0
+	if want != uuid.Nil {
+		had = r.probe.count(want)
+	}
+	before := ppool.Count()
+	r.px.restore()
+	if !waitFor(fractal.PersistentRemoteSuperiorRetryInterval+10*time.Second, func() bool { return ppool.Count() > before }) {
+		return "never-dialled-again"
+	}
+	r.cut = false
+	if d.linkUp(name) {
+		// the pool has the new connection before the relay has switched to it (Reborn installs the new reader and
+		// writer after the dial returned): reports sent in between go to the old, closed writer and are refused
+		synced := false
+		for try := 0; try < 20 && !synced; try++ {
+			if synced = d.sync(r); !synced {
+				time.Sleep(200 * time.Millisecond)
+			}
+		}
+		if !synced {
+			return "nosync"
+		}
+		// relays below this one report through it: their reports now carry its new collector id
+	}
+	if want != uuid.Nil {
+		if !waitFor(3*time.Second, func() bool { return r.probe.count(want) > had }) {
+			return "nolatest"
+		}
+	} else {
+		time.Sleep(300 * time.Millisecond)
+	}
+	return "ok"
+}
+
 func (d *drv) connect(name string) string {
 	parent := d.parentOf(name)
 	ppool, paddr := d.poolOf(parent)
@@ -399,6 +513,7 @@ func (d *drv) connect(name string) string {
 	if err != nil {
 		return "err: " + err.Error()
 	}
+	pbefore := ppool.Count()
 	prs, cancel, err := fractal.NewPersistentRemoteSuperior(d.ctx, connection.DialAddress(px.l.Addr().String()))
 	if err != nil {
 		return "err: " + err.Error()
@@ -417,7 +532,12 @@ func (d *drv) connect(name string) string {
 		return "err: relay pool: " + err.Error()
 	}
 	d.relays[name] = r
-	if !d.sync(r) {
+	if !d.linkUp(name) {
+		// a link further up is broken: no marker can travel; the parent's pool shows the new collector
+		if !waitFor(3*time.Second, func() bool { return ppool.Count() > pbefore }) {
+			return "pool-never-saw-it"
+		}
+	} else if !d.sync(r) {
 		return "nosync"
 	}
 	// what the parent hands a newcomer: the superior's current quality task, a relay's last one
@@ -456,7 +576,7 @@ func (d *drv) disconnect(name string, hard ...bool) string {
 	if ppool == nil {
 		ppool = d.pool
 	}
-	if len(hard) > 0 && hard[0] {
+	if len(hard) > 0 && hard[0] && !r.cut {
 		// the connection is cut in the middle first; the pool must notice on its own, and stopping the relay (now in
 		// its reconnect wait) must still return promptly
 		before := ppool.Count()
@@ -482,7 +602,7 @@ func (d *drv) disconnect(name string, hard ...bool) string {
 	}
 	delete(d.relays, name)
 	// the pool notices the lost connection, stops its collector and unsubscribes it
-	if !(len(hard) > 0 && hard[0]) && !waitFor(3*time.Second, func() bool { return ppool.Count() < before }) {
+	if !(len(hard) > 0 && hard[0]) && !r.cut && !waitFor(3*time.Second, func() bool { return ppool.Count() < before }) {
 		return "poolkeeps"
 	}
 	return "ok"
@@ -581,12 +701,14 @@ func (d *drv) addTask(t, kind, tg string) string {
 	if kind == "bcast" {
 		d.cur = t
 		for _, r := range d.relays {
-			via = append(via, r)
+			if d.linkUp(r.name) {
+				via = append(via, r)
+			}
 		}
 	} else if r := d.relays[tg]; r != nil && r.parent == "S" {
 		target = r.rcID
 		for _, q := range d.relays {
-			if d.rootOf(q.name) == tg {
+			if d.rootOf(q.name) == tg && d.linkUp(q.name) {
 				via = append(via, q)
 			}
 		}
@@ -651,6 +773,10 @@ func (d *drv) report(c, t string, ps []string) string {
 		if err != nil {
 			res = "err: " + err.Error()
 		}
+	}
+	if r != nil && !d.linkUp(r.name) {
+		// a link on the way up is broken: refused by this relay's writer, or accepted and dropped further up
+		return "lost"
 	}
 	if r != nil && !d.sync(r) {
 		return "nosync"
@@ -772,6 +898,10 @@ func run(sc vh.Scenario, dir string, rec *vh.Rec) {
 			ev["res"] = d.connect(st.Str("r"))
 		case "Disconnect":
 			ev["res"] = d.disconnect(st.Str("r"), st.Bool("hard"))
+		case "Outage":
+			ev["res"] = d.outage(st.Str("r"))
+		case "Recover":
+			ev["res"] = d.recover(st.Str("r"))
 		case "AddB":
 			ev["res"] = d.addTask(st.Str("t"), "bcast", "")
 		case "AddT":
